@@ -444,3 +444,4 @@ PROP = Prop(
     subs=[Sub('forms', body_form, strategy=case_form, quick=160, thorough=3000),
           Sub('helpers', body_helper, strategy=case_helper, quick=3000, thorough=60000)],
     design_ref='DESIGN.md section 6, C20')
+PROP.rule += ('. Added in round 2: family basis_product (two or three separate CellBases combined with * / CompositeBasis, cyclically coupled nonlinear integrand, oracle = block assembly with ordinary forms); det and inv with entries scaled by 2^-27 .. 2^10.')
